@@ -19,7 +19,7 @@ func init() {
 		Level: "other",
 		Explanation: "Soundness of a definite TryEval answer rests on three gates that are visible in the code, and these are decided: (R-PROXYGATE) in TryEval's own code (its static-call closure) every dynamic Operator call other than the cond arm's is the one inside executeOperatorProxy, and that call executes only on the false edge of contains(params, DNE): an operator never sees an unavailable operand (otherwise `(= x 1)` with x unavailable would answer a definite false); the operator's result and error are returned unchanged; " +
 			"(R-SHORTCUT) executeOperatorProxy returns constant false only under isAndOpNode(n) && contains(params,false), constant true only under isOrOpNode(n) && contains(params,true), DNE only under contains(params,DNE); (R-CACHEDGATE) every VariableFetcher.Get in that closure executes only on the true edge of Cached on the same fetcher with the same (varKey,strKey) of one node, and the other edge returns (DNE, nil); " +
-			"(R-PAIR) the polarity tables agree: matchesShortCircuit (andOp: res==false, orOp: res==true, else res==DNE), calAndSetShortCircuitForRCO (and-parent: andOp, or-parent: orOp), calAndSetShortCircuit (and-parent: scIfFalse, or-parent: scIfTrue), and the flag bit groups are disjoint (R-BITS). NOT decided: the climbing loop (matchesShortCircuit/parentNode/stack reset), i.e. that a decided value is attributed to the right ancestor.",
+			"(R-PAIR) the polarity tables agree: matchesShortCircuit (andOp: res==false, orOp: res==true, else res==DNE), calAndSetShortCircuitForRCO (and-parent: andOp, or-parent: orOp), calAndSetShortCircuit (and-parent: scIfFalse, or-parent: scIfTrue), and the flag bit groups are disjoint (R-BITS). (R-STEPRES / R-STEPARGS on TryEval) per arm the pushed value is exactly the node literal / fetchVariableValueProxy(ctx, curt)#0 / executeOperatorProxy(ctx, curt, operands)#0 applied in that arm; the operand vector is built exactly as in Eval (sibling agreement); fast-arm slot k is getNodeValueProxy(ctx, nodes[i+1+k])#0 and nothing else. NOT decided: the climbing loop (matchesShortCircuit/parentNode/stack reset), i.e. that a decided value is attributed to the right ancestor.",
 		Run:       runC04,
 		Witnesses: c04Witnesses,
 	})
@@ -28,6 +28,7 @@ func init() {
 		Level: "other",
 		Explanation: "Decides the ordering and 'DNE is not an error' clauses: (R-PROXYORDER) in executeOperatorProxy the two shortcut returns are reached under exactly their own two conditions (and-node with a false operand / or-node with a true operand) and nothing else — in particular not under 'no operand is DNE' — so an `and` with any available false operand is false wherever the unavailable operands sit; " +
 			"(R-DNE-NOT-ERR) the not-cached edge of the variable proxy returns the DNE marker with a nil error; (R-DNEBOOL) TryEvalBool maps res == DNE to ErrDNE before it asserts bool; (R-FASTPROXY) the fast-operator arm of TryEval obtains both operands through the value proxy (constant: the literal; variable: the cached-gated fetch) and applies the operator proxy; (R-PAIR/R-BITS) as in C04. " +
+			"(R-STEPRES / R-STEPARGS on TryEval) per arm the pushed value is exactly the node literal / fetchVariableValueProxy(ctx, curt)#0 / executeOperatorProxy(ctx, curt, operands)#0 applied in that arm; the operand vector is built exactly as in Eval (sibling agreement); fast-arm slot k is getNodeValueProxy(ctx, nodes[i+1+k])#0 and nothing else. " +
 			"NOT decided: that every Kleene-definite expression yields a definite answer (propagation through nested shapes, deciding operands after unavailable ones).",
 		Run:       runC05,
 		Witnesses: c05Witnesses,
@@ -522,6 +523,7 @@ func runC04(w *World, r *Report) {
 	rulePair(w, r)
 	ruleBits(w, r)
 	rulePairBool(w, r)
+	ruleStepArgs(w, r, ruleStepRes(w, r, "(*Expr).TryEval"))
 }
 
 // ---- C05 ----------------------------------------------------------------------
@@ -534,6 +536,7 @@ func runC05(w *World, r *Report) {
 	ruleFastProxy(w, r)
 	rulePair(w, r)
 	ruleBits(w, r)
+	ruleStepArgs(w, r, ruleStepRes(w, r, "(*Expr).TryEval"))
 }
 
 func ruleDneBool(w *World, r *Report) {
@@ -718,7 +721,7 @@ func ruleFastProxy(w *World, r *Report) {
 
 var _ = types.Typ
 
-var c04Witnesses = []Witness{
+var c04Witnesses = append(stepWitnessesTry, []Witness{
 	{Name: "operator-before-dne-test", Rule: "R-PROXYGATE", Edits: []Edit{
 		{File: "engine.go", Old: "	case contains(params, DNE):\n		return DNE, nil\n	}\n	return n.operator(ctx, params)", New: "	}\n	res, err := n.operator(ctx, params)\n	if err != nil && contains(params, DNE) {\n		return DNE, nil\n	}\n	return res, err"}}},
 	{Name: "or-node-returns-false-shortcut", Rule: "R-SHORTCUT", Edits: []Edit{
@@ -739,7 +742,7 @@ var c04Witnesses = []Witness{
 		{File: "engine.go", Old: "	scIfFalse = uint8(0b00001000)", New: "	scIfFalse = uint8(0b00000100)"}}},
 	{Name: "benign-proxy-as-if-chain", Benign: true, Edits: []Edit{
 		{File: "engine.go", Old: "	switch {\n	case isAndOpNode(n) && contains(params, false):\n		return false, nil\n	case isOrOpNode(n) && contains(params, true):\n		return true, nil\n	case contains(params, DNE):\n		return DNE, nil\n	}\n	return n.operator(ctx, params)", New: "	if isAndOpNode(n) {\n		if contains(params, false) {\n			return false, nil\n		}\n	} else if isOrOpNode(n) && contains(params, true) {\n		return true, nil\n	}\n	if !contains(params, DNE) {\n		return n.operator(ctx, params)\n	}\n	return DNE, nil"}}},
-}
+}...)
 
 var c05Witnesses = []Witness{
 	{Name: "dne-poisons-before-shortcuts", Rule: "R-PROXYORDER", Edits: []Edit{
